@@ -50,6 +50,7 @@ def gen_msg(rng, target, dotlines=0, hopcount=0, hop_in_body=0):
     return hdr + body + b'.\r\n'
 
 
+COUNTED_RCPT = ('rcpt_alice', 'rcpt_carol', 'rcpt_postmaster', 'rcpt_space')
 PLAINLY_INVALID = ('garbage', 'empty', 'helo_noarg', 'data_arg', 'mail_nobracket')
 
 
@@ -92,6 +93,20 @@ def run_job(ctx, b, name, seqs_msgs, databytes, vocab):
                 fails.append((case, str(final), 'fails limit-not-reached-but-refused'))
         if r.fault:
             fails.append((case, 'session', 'fails memory-safety-or-crash: ' + r.fault[:150]))
+        # the recipient clause on the transcript alone: inside one transaction every RCPT TO for an existing local
+        # user behind the 500th such command is answered 452, whatever the sender is and whatever the earlier ones got
+        cnt, intx = 0, False
+        for i, n in enumerate(s):
+            codes = obs[i]['codes'] if i < len(obs) else []
+            if n.startswith('mail'):
+                intx, cnt = codes[-1:] == ['250'], 0
+            elif n in ('rset', 'ehlo', 'helo', 'data', 'quit', 'post'):
+                intx = False
+            elif intx and n in COUNTED_RCPT:
+                cnt += 1
+                if cnt > 500 and codes and codes != ['452']:
+                    fails.append((case, 'recipient %d answered %s' % (cnt, codes), 'fails recipient-limit: a recipient beyond the 500th is not answered 452'))
+                    break
         # the bad-command clause on the transcript alone: after MAXBADCMDS + 2 = 7 consecutive commands that are
         # invalid by construction (unknown verb, empty line, missing or surplus argument, missing bracket)
         # the connection is closed: nothing that follows is answered
@@ -256,6 +271,11 @@ def run(ctx):
             jobs.append((s, None))
             s2 = ['ehlo', 'mail'] + ['rcpt_bob', 'rcpt_nobracket', 'rcpt_more'] + ['rcpt_alice'] * n + ['rcpt_bob', 'rcpt_nobracket', 'data']
             jobs.append((s2, None))
+            # the empty sender: every recipient behind the first is refused by the bounce rule, but each one is
+            # put on the list and counts (seeded change c15-m7: the counter was not advanced on that branch);
+            # a NOOP in between keeps the refusals from adding up to the bad-command limit
+            s3 = ['ehlo', 'mail_bounce'] + [x for i in range(n) for x in (['rcpt_alice'] if i % 4 else ['noop', 'rcpt_alice'])] + ['data']
+            jobs.append((s3, None))
         run_job(ctx, b, 'recipient-limit', jobs, None, vocab)
         # bad command runs of 4..9 interleaved with good ones
         bad = ['garbage', 'empty', 'rcpt_bob', 'helo_noarg', 'data_arg', 'mail_nobracket', 'vrfy_long', 'long', 'post']
